@@ -43,9 +43,11 @@ PLANS = {
                       per_beh=5, fs=[1, 3, 25, 400], vts=["tiny", "edge", "ovf"], embs=api.EMBEDDINGS_ALL)),
     "C13": dict(
         quick=dict(mc=["core2"], gens=[dict(maxlog=2, num=24, depth=22, lean=True, focus="commit", templates="cold")],
-                   per_beh=1, fs=[25, 60], vts=["tiny", "mixed"], embs=["top", "scatter", "deep(6):z", "spread(6)"], matrix=True),
+                   per_beh=1, fs=[25, 60], vts=["tiny", "mixed"], embs=["top", "scatter", "deep(6):z", "spread(6)"], matrix=True,
+                   wide=dict(runs=1, fs=[1500, 2000])),
         thorough=dict(mc=["core", "core2"], gens=[dict(maxlog=2, num=200, depth=28, lean=True, focus="commit", templates="cold")],
-                      per_beh=2, fs=[3, 25, 60, 400], vts=["tiny", "mixed", "edge"], embs=api.EMBEDDINGS_ALL, matrix=True)),
+                      per_beh=2, fs=[3, 25, 60, 400], vts=["tiny", "mixed", "edge"], embs=api.EMBEDDINGS_ALL, matrix=True,
+                      wide=dict(runs=3, fs=[1500, 2000, 2400], matrix_points=[0, 1, 2, 3, 4, 5]))),
     "C16": dict(
         quick=dict(mc=["core2"], gens=[dict(maxlog=2, num=60, depth=24, lean=True, focus="commit")],
                    per_beh=2, fs=[1, 3, 25, 60], vts=["tiny", "edge", "ovf", "mixed", "mixed2", "big"], embs=api.EMBEDDINGS_QUICK,
@@ -376,13 +378,25 @@ def run_plan(pid, tier, seed, extra_cov=None, t0=None):
             store, conc = api.concretise(beh, consts, rng, f=rng.choice(plan["wide"]["fs"]), emb="top", vt="tiny")
             conc["vtable"] = {"v1": "inline-max", "v2": "small", "v3": "tiny"}
             store.update(hashtable_buckets=16000, commit_concurrency=[2, 3, 2, 4][wi % 4])
-            run += 1
-            sc = api.make_script(run, beh, store, conc)
-            sc["decode"] = bool(plan.get("decode"))
-            scripts[run] = sc
-            classes[run] = "ml2_rb1"
-            script_by_run[run] = sc
-            distinct.add(C.sha([beh, store, conc]))
+            stores = [store]
+            if plan.get("matrix"):
+                # C13: the same wide history under several points of the configuration matrix (1 .. 64 workers)
+                stores = []
+                for mc in (api.CONFIG_MATRIX[k] for k in plan["wide"].get("matrix_points", [0, 2, 3, 4])):
+                    st2 = dict(mc)
+                    st2.update(rollback=store["rollback"], max_rollback_log_len=store["max_rollback_log_len"], seed=rng.randrange(1 << 30),
+                               hashtable_buckets=16000)
+                    stores.append(st2)
+            for store in stores:
+                run += 1
+                sc = api.make_script(run, beh, store, conc)
+                sc["decode"] = bool(plan.get("decode"))
+                if plan.get("matrix"):
+                    group_of[run] = C.sha([beh, conc])
+                scripts[run] = sc
+                classes[run] = "ml2_rb1"
+                script_by_run[run] = sc
+                distinct.add(C.sha([beh, store, conc]))
     if os.environ.get("VERIF_DEBUG_ONLY_RUNS"):
         # debugging aid: regenerate the plan deterministically, keep only the named runs (and their twins)
         only = {int(x) for x in os.environ["VERIF_DEBUG_ONLY_RUNS"].split(",")}
